@@ -4,7 +4,7 @@
    ClassicalDedekindReals.sig_forall_dec, ClassicalDedekindReals.sig_not_dec and
    FunctionalExtensionality.functional_extensionality_dep, nothing else. *)
 From Coq Require Import ZArith Reals.
-From Abacus.C18 Require Import Spec Gen PDecompose PCell PMajor PMinor PTriad PCoverage.
+From Abacus.C18 Require Import Spec Gen PDecompose PCell PMajor PMinor PTriad PCoverage PCoverBound.
 Local Open Scope R_scope.
 
 (* ★ The integer part of the decoder is a bijection from the 65 340 valid codes (0 <= c < 12*121*45) onto the valid
@@ -90,12 +90,13 @@ Theorem coverage_partial : forall v, generic v ->
 Proof. exact coverage_partial_lemma. Qed.
 Print Assumptions coverage_partial.
 
-(* STATED-UNPROVED: coverage_bound — the metric half of the coverage clause ("to within the angular cell size of the
-   format, about 4 degrees") is NOT proved in Coq:
-
-     forall v : vec, dot v v = 1 ->
-       exists c, valid_code c /\ cos (45 / 10 * PI / 180) <= Rabs (dot v (snd (unpack_euler16 c))).
-
-   Also not proved: that the in-cap cells (it, ir) tile the triangle 0 <= |x| < y < z of a cap.  Both rest on the
-   correspondence run alone (harness: maximal angular distance from a fine direction grid to the nearest of the 1452
-   decoded major axes, measured on the implementation; pre-study 3.1 degrees, alarm above 4.5). *)
+(* ★ coverage_bound — the metric half of the coverage clause: every direction (unit vector) is, up to sign, within 4.5
+   degrees of the decoded major axis of some valid code.  Proof (PCoverBound.v, PCovRingNN.v): closed cap patterns cover all
+   vectors up to sign; the fundamental triangle of a cap, parametrised by t = y/z in [0,1] and r = x/y in [-1,1], is cut into
+   121 boxes, one per in-cap cell, and for each box coq-interval bounds the cosine of the angle to the cell's regenerated axis
+   (Gen.cell_axis) below by 0.99692 > cos 4.5 degrees.  The bound is close to tight for this assignment (the corner of the
+   polar cell is 4.45 degrees from its axis); the nearest axis overall is measured at 3.1 degrees by the harness. *)
+Theorem coverage_bound : forall v : vec, dot v v = 1 ->
+  exists c, valid_code c /\ cos (45 / 10 * PI / 180) <= Rabs (dot v (snd (unpack_euler16 c))).
+Proof. exact coverage_bound_lemma. Qed.
+Print Assumptions coverage_bound.
